@@ -18,6 +18,7 @@ def run(tier: str, seed: int, rep: Report, model: Model) -> dict:
     n = depth(tier, 1000, 40000)
     rep.rule = ("conforming contexts with a return hint, one fault placed in a single argument position or only in the return value "
                 "(resize / add / drop axis / dtype / None / non-array); distinct = distinct case; non-trivial = the fault makes the context inconsistent")
+    rep.rule += "; a third of the cases with trailing parameters left at (possibly violating) defaults; signatures with an un-annotated parameter called cls / self; bodies that return their own argument under a return annotation that is a one-step variation of the parameter's"
     cases, where = [], []
     cases.append(sig_case([("x", "a b")], [(2, 3)], ret="a b", retval=(2, 4)))
     where.append("ret")
